@@ -72,13 +72,23 @@ def spansChain : Nat → List (Nat × Nat) → Option Nat
   | a, [] => some a
   | a, (s, t) :: rest => if s = a ∧ s ≤ t then spansChain t rest else none
 
+/-- first row a span list starts reading at (the box's own first row when there is no span) -/
+def spansStart (i0 : Nat) : List (Nat × Nat) → Nat
+  | [] => i0
+  | (s, _) :: _ => s
+
 /-- contract of `CSRReader.get_spans(bbox, chunksize)`: for an empty box no span; otherwise a chain of
-consecutive row spans from `i0` to some `e ≤ i1` such that rows `[e, i1)` hold no pixel -/
+consecutive row spans from some `a ≥ i0` to some `e ≤ i1` such that the rows `[i0, a)` before it and the
+rows `[e, i1)` after it hold no pixel (empty rows at either end may be left out or attached to a
+neighbouring span: nothing is read from them) -/
 def validSpans (offs : List Nat) (b : Box) (spans : List (Nat × Nat)) : Bool :=
   if b.i1 ≤ b.i0 ∨ b.j1 ≤ b.j0 then spans.isEmpty
-  else match spansChain b.i0 spans with
-    | some e => decide (e ≤ b.i1) && decide (offAt offs e = offAt offs b.i1)
-    | none => false
+  else
+    decide (b.i0 ≤ spansStart b.i0 spans) &&
+    decide (offAt offs b.i0 = offAt offs (spansStart b.i0 spans)) &&
+    (match spansChain (spansStart b.i0 spans) spans with
+     | some e => decide (e ≤ b.i1) && decide (offAt offs e = offAt offs b.i1)
+     | none => false)
 
 /-- the model's own choice: one span per row (any valid choice gives the same result: theorem) -/
 def rowSpans (b : Box) : List (Nat × Nat) :=
